@@ -65,10 +65,21 @@ def unicodeMapName (cidcoding : Bytes) : Bytes := toUnicodePrefix ++ cidcoding +
 /-- `os.path.basename(f) == f` on POSIX: no `/`. -/
 def plainFile (f : Bytes) : Bool := !f.contains 47
 
+/-- `os.path.basename(p)` (posixpath): what follows the last `/` (`p[p.rfind("/") + 1:]`). -/
+def basename (p : Bytes) : Bytes := (splitSlash p).getLastD []
+
 /-- The paths `_load_data(name)` hands to `os.path.exists` / `gzip.open`, in order
-    (none when the guard rejects the name: `CMapNotFound`). -/
+    (none when the guard rejects the name: `CMapNotFound`).  The guard's test is the TRANSLATED
+    comparison `Gen.PathGen.cmapGuardRejects` (round 6); `Lemmas/Path.lean: cmapProbes_eq` shows it to
+    be "the file name contains no separator". -/
 def cmapProbes (dirs : List Bytes) (name : Bytes) : List Bytes :=
-  if plainFile (cmapFilename name) then dirs.map (fun d => join d (cmapFilename name)) else []
+  if cmapGuardRejects basename (stripNul name) (cmapFilename name) then []
+  else dirs.map (fun d => join d (cmapFilename name))
+
+/-- The resource directories `_load_data` searches, in order: the directory named by the environment
+    variable `CMAP_PATH` (`env = none`: not set → the regenerated default literal) and `<package>/cmap`. -/
+def cmapDirs (env : Option Bytes) (pkgdir : Bytes) : List Bytes :=
+  [env.getD cmapPathDefault, join pkgdir cmapPkgSubdir]
 
 def cmapProbesPinned (dirs : List Bytes) (name : Bytes) : List Bytes :=
   dirs.map (fun d => join d (cmapFilename name))
@@ -76,11 +87,22 @@ def cmapProbesPinned (dirs : List Bytes) (name : Bytes) : List Bytes :=
 /-! ### image output paths -/
 
 /-- Path separators and NUL in a document-supplied image name become `_`. -/
-def safeName (name : Bytes) : Bytes := name.map (fun c => if c = 47 ∨ c = 0 then imageReplacement else c)
+def safeName (name : Bytes) : Bytes :=
+  name.map (fun c => if imageReplacedChars.contains c then imageReplacement else c)
 
 /-- (file name, path) of `_create_unique_image_name` for a directory listing `existing`. -/
 def imagePath (outdir name ext : Bytes) (existing : List Bytes) : Option (Bytes × Bytes) :=
   (uniqueName existing (safeName name) ext).map (fun nm => (nm, join outdir nm))
+
+/-- A history of exports into one directory: each request is (image name, extension); every file
+    created joins the listing the next request sees.  (`_create_unique_image_name` called again and
+    again by one or several `ImageWriter`s on the same `outdir`.) -/
+def exportHistory (outdir : Bytes) : List (Bytes × Bytes) → List Bytes → List (Bytes × Bytes)
+  | [], _ => []
+  | (name, ext) :: rest, existing =>
+    match imagePath outdir name ext existing with
+    | some (nm, p) => (nm, p) :: exportHistory outdir rest (nm :: existing)
+    | none => []
 
 /-- Pinned: the raw name is joined onto the output directory (first candidate, nothing exists). -/
 def imagePathPinned (outdir name ext : Bytes) : Bytes := join outdir (name ++ ext)
